@@ -154,9 +154,7 @@ func runCheck(o checkOpts) int {
 			if fi == nil || (o.only != "" && blk.Key != o.only) {
 				continue
 			}
-			var ord int
-			fmt.Sscanf(blk.Sub, "lit %d", &ord)
-			lit := litByOrdinal(fi, ord)
+			lit := litBySub(fi, blk.Sub)
 			if lit == nil {
 				unitErrsEarly = append(unitErrsEarly, fmt.Sprintf("%s/%s %s: the function has no such literal any more", o.prop, blk.Key, blk.Sub))
 				continue
@@ -577,6 +575,14 @@ func runCanaries(o checkOpts) []map[string]interface{} {
 	var out []map[string]interface{}
 	seeds, _ := filepath.Glob(filepath.Join(verifDir(), "seeded", o.prop+"-*", "patch.diff"))
 	sort.Strings(seeds)
+	// negative canaries: behaviour-preserving edits (/verif/benign/<prop>-bN.diff) that the check must NOT report
+	benign, _ := filepath.Glob(filepath.Join(verifDir(), "benign", o.prop+"-b*.diff"))
+	sort.Strings(benign)
+	isBenign := map[string]bool{}
+	for _, b := range benign {
+		isBenign[b] = true
+	}
+	seeds = append(seeds, benign...)
 	if len(seeds) == 0 {
 		return out
 	}
@@ -586,7 +592,13 @@ func runCanaries(o checkOpts) []map[string]interface{} {
 	}
 	for _, patch := range seeds {
 		id := filepath.Base(filepath.Dir(patch))
+		if isBenign[patch] {
+			id = strings.TrimSuffix(filepath.Base(patch), ".diff")
+		}
 		rec := map[string]interface{}{"seed": id}
+		if isBenign[patch] {
+			rec["kind"] = "behaviour-preserving edit: must not be reported"
+		}
 		scratch, err := os.MkdirTemp("", "govc-canary-")
 		if err != nil {
 			rec["result"] = "skipped: " + err.Error()
@@ -617,6 +629,15 @@ func runCanaries(o checkOpts) []map[string]interface{} {
 			b, _ := cmd.CombinedOutput()
 			n := strings.Count(string(b), "VIOLATION property=")
 			rec["violations_reported"] = n
+			if isBenign[patch] {
+				if n == 0 {
+					rec["result"] = "not reported (as it should be)"
+				} else {
+					rec["result"] = "FALSE ALARM"
+					fmt.Printf("SELFTEST-WARNING: property=%s behaviour-preserving edit %s was reported as a violation\n", o.prop, id)
+				}
+				return
+			}
 			if n > 0 {
 				rec["result"] = "detected"
 			} else {
